@@ -59,6 +59,33 @@ def history(sh: Shard, seed, idx):
         if early_positions:
             # the positions touched during the handshake change again, silently, and are refreshed
             forced = [("silent", p_) for p_ in early_positions] + [("refresh", None), ("statp", None)]
+        if idx % 8 == 1:
+            # a flood: the spa (or a recovering link) delivers several hundred partial updates a
+            # millisecond apart - far faster than the client's send throttle lets acknowledgements out
+            nfl = r.choice([520, 650])
+            msgs = []
+            for k in range(nfl):
+                ch = [(r.choice([r.randrange(0, 1022), 300, 301]), word())]
+                rig.set_sim_block(apply_changes(rig.sim_block, ch))
+                ref = apply_changes(ref, ch)
+                msgs.append(P.report_changes(rig.sim._socket, ch, parms=rig.client_parms).send_bytes)
+            t0 = s.now
+            for k, data in enumerate(msgs):
+                s.at(t0 + 0.01 + k * 0.001, (lambda d=data: rig.client_sock.inbox.append((d, ("10.0.0.1", 10022)))))
+            n_acks_expected += nfl
+            s.sleep(nfl * 0.001 + 0.5)
+            rig.quiesce(settle=0.5, limit=nfl / 40.0 + 30)
+            sh.count("threaded_floods")
+            sh.evaluations += 1
+            if spa.struct.status_block != ref:
+                bad = [i for i in range(min(len(spa.struct.status_block), len(ref))) if spa.struct.status_block[i] != ref[i]][:6]
+                sh.violation("C05:threaded:block-mismatch", f"threaded client block differs from the reference at {bad} after a flood of {nfl} partial updates", {"history": ["FLOOD", nfl], "positions": bad})
+                ref = spa.struct.status_block
+            got_acks = len([x for x in rig.c2s() if x["verb"] == "STATQ"])
+            if got_acks != n_acks_expected:
+                sh.violation("C05:threaded:ack-count", f"after a flood of {nfl} partial updates a millisecond apart: {n_acks_expected} delivered, {got_acks} acknowledgements sent", {"history": ["FLOOD", nfl]})
+                n_acks_expected = got_acks
+            ops.append(("FLOOD", nfl))
         long_lived = idx == 0  # one connection per run with enough acknowledgements for the counter to wrap twice
         if long_lived:
             sh.count("threaded_long_connections")
@@ -143,4 +170,5 @@ def add(run, tier, seed):
     run.need(run.counters.get("threaded_early_statp", 0) > 10, "threaded client: no partial update during the handshake")
     run.need(run.counters.get("threaded_acks_ok", 0) > 100, "threaded client: too few acknowledgements")
     run.need(run.counters.get("threaded_statp_with_128_or_more_records", 0) >= 5, "threaded client: no partial update with 128 or more records")
+    run.need(run.counters.get("threaded_floods", 0) >= 4, "threaded client: no flood of partial updates")
     run.need(run.counters.get("threaded_long_connections", 0) >= 1, "threaded client: the long-lived connection was not driven")
